@@ -574,6 +574,8 @@ def _reject(run, rng, vd):
             bad = [w, e, s, n, 0.0]
         cases.append(bad)
     w, e, s, n = _region(rng, degenerate_ok=False)
+    # both pairs inverted at once; one pair inverted with the other degenerate; inverted by one ulp with the other degenerate
+    cases += [[e, w, n, s], [e, w, s, s], [w, w, n, s], [np.nextafter(w, np.inf), w, s, s], [-1.0, -2.0, -3.0, -4.0], (5, 1, 5, 1), np.array([5.0, 1.0, 3.0, 3.0])]
     cases += [[w, e, s, n, 0.0, 1.0], [w, e, s, n, 5.0, 2.0], [w, e, s, n, 0.0, 1.0, -1.0, 1.0], [w, e], np.array([w, e, s, n, 0.0, 1.0]), (w, e, s, n, 1.0, 2.0, 3.0)]
     cases.append([np.nextafter(1.0, 2.0), 1.0, 0.0, 1.0])  # W one ulp above E
     cases.append([0.0, 1.0, 1.0, np.nextafter(1.0, 0.0)])  # S one ulp above N
